@@ -18,30 +18,520 @@ mutual
     | .subFail => ([], .component)
 end
 
+/-- Bytes that have logically left the program: what the writer holds plus what is buffered. -/
+def cont (b : BW) : Bytes := b.u.accepted ++ b.buf
+
+theorem under_write_spec (u : Under) (p : Bytes) (u' : Under) (n : Nat) (e : Bool)
+    (h : u.write p = (u', n, e)) :
+    u'.accepted = u.accepted ++ p.take n ∧
+    (e = false → n = p.length) ∧
+    u'.limit = u.limit ∧
+    (u.limit = none → e = false) ∧
+    (∀ k a0, u.limit = some k → (u.accepted = a0 ∨ u.accepted.length ≤ k) →
+      (u'.accepted = a0 ∨ u'.accepted.length ≤ k)) := by
+  unfold Under.write at h
+  cases hl : u.limit with
+  | none =>
+    simp only [hl, Prod.mk.injEq] at h
+    obtain ⟨rfl, rfl, rfl⟩ := h
+    simp
+  | some k =>
+    simp only [hl] at h
+    split at h
+    · rename_i hle
+      simp only [Prod.mk.injEq] at h
+      obtain ⟨rfl, rfl, rfl⟩ := h
+      refine ⟨by simp, by simp, by simp, by simp, ?_⟩
+      intro k' a0 hk' hJ
+      simp only [Option.some.injEq] at hk'
+      subst hk'
+      by_cases hp : p = []
+      · subst hp; simpa using hJ
+      · right
+        have : 0 < p.length := List.length_pos_iff.mpr hp
+        simp only [List.length_append]
+        omega
+    · rename_i hgt
+      split at h
+      · simp only [Prod.mk.injEq] at h
+        obtain ⟨rfl, rfl, rfl⟩ := h
+        refine ⟨by simp, by simp, hl, by simp, ?_⟩
+        intro k' a0 _ hJ
+        exact hJ
+      · simp only [Prod.mk.injEq] at h
+        obtain ⟨rfl, rfl, rfl⟩ := h
+        refine ⟨by simp, by simp, by simp, by simp, ?_⟩
+        intro k' a0 hk' hJ
+        simp only [Option.some.injEq] at hk'
+        subst hk'
+        by_cases hak : u.accepted.length ≤ k
+        · right
+          simp only [List.length_append, List.length_take]
+          omega
+        · have : k - u.accepted.length = 0 := by omega
+          simp only [this, List.take_zero, List.append_nil]
+          exact hJ
+
+/-- What every buffer operation preserves, whether or not it fails. `a0` is the ghost value "what the writer held when
+    the render started"; `J` says the writer has either received nothing yet or is within its limit. -/
+structure Core (a0 : Bytes) (b b' : BW) : Prop where
+  cap : b'.cap = b.cap
+  limit : b'.u.limit = b.u.limit
+  errMono : b'.err = false → b.err = false
+  noLimit : b.u.limit = none → b'.err = b.err
+  frozen : b.err = true → cont b' = cont b
+  J : ∀ k, b.u.limit = some k → (b.u.accepted = a0 ∨ b.u.accepted.length ≤ k) →
+    (b'.u.accepted = a0 ∨ b'.u.accepted.length ≤ k)
+
+theorem Core.refl (a0 : Bytes) (b : BW) : Core a0 b b :=
+  ⟨rfl, rfl, id, fun _ => rfl, fun _ => rfl, fun _ _ h => h⟩
+
+theorem Core.trans {a0 : Bytes} {b b' b'' : BW} (h1 : Core a0 b b') (h2 : Core a0 b' b'') : Core a0 b b'' := by
+  refine ⟨h2.cap.trans h1.cap, h2.limit.trans h1.limit, fun h => h1.errMono (h2.errMono h), ?_, ?_, ?_⟩
+  · intro hl
+    rw [h2.noLimit (h1.limit.trans hl), h1.noLimit hl]
+  · intro he
+    have he' : b'.err = true := by
+      cases h : b'.err with
+      | true => rfl
+      | false => rw [h1.errMono h] at he; cases he
+    rw [h2.frozen he', h1.frozen he]
+  · intro k hl hJ
+    exact h2.J k (h1.limit.trans hl) (h1.J k hl hJ)
+
+/-- One step from `b` to `b'` during which the program tried to emit `p`. -/
+structure Step (a0 : Bytes) (b b' : BW) (p : Bytes) : Prop where
+  core : Core a0 b b'
+  exact : b'.err = false → cont b' = cont b ++ p
+  pre : ∃ t, t <+: p ∧ cont b' = cont b ++ t
+
+theorem Step.refl_nil (a0 : Bytes) (b : BW) : Step a0 b b [] :=
+  ⟨Core.refl a0 b, fun _ => by simp, ⟨[], List.prefix_refl _, by simp⟩⟩
+
+theorem Step.refl_err (a0 : Bytes) (b : BW) (p : Bytes) (he : b.err = true) : Step a0 b b p :=
+  ⟨Core.refl a0 b, fun h => (by rw [he] at h; cases h), ⟨[], List.nil_prefix, by simp⟩⟩
+
+theorem Step.trans {a0 : Bytes} {b b' b'' : BW} {p q : Bytes}
+    (h1 : Step a0 b b' p) (h2 : Step a0 b' b'' q) : Step a0 b b'' (p ++ q) := by
+  refine ⟨h1.core.trans h2.core, ?_, ?_⟩
+  · intro he
+    rw [h2.exact he, h1.exact (h2.core.errMono he), List.append_assoc]
+  · cases he : b'.err with
+    | false =>
+      obtain ⟨t, ht, hc⟩ := h2.pre
+      refine ⟨p ++ t, (List.prefix_append_right_inj p).mpr ht, ?_⟩
+      rw [hc, h1.exact he, List.append_assoc]
+    | true =>
+      obtain ⟨t, ht, hc⟩ := h1.pre
+      refine ⟨t, ht.trans (List.prefix_append _ _), ?_⟩
+      rw [h2.core.frozen he, hc]
+
+theorem Step.cast {a0 : Bytes} {b b' : BW} {p q : Bytes} (h : Step a0 b b' p) (hpq : p = q) : Step a0 b b' q :=
+  hpq ▸ h
+
+theorem step_append (a0 : Bytes) (b : BW) (q : Bytes) (hb : b.err = false) :
+    Step a0 b { b with buf := b.buf ++ q } q := by
+  refine ⟨⟨rfl, rfl, fun _ => hb, fun _ => rfl, ?_, fun _ _ h => h⟩, ?_, ⟨q, List.prefix_refl _, ?_⟩⟩
+  · intro h; rw [hb] at h; cases h
+  · intro _; simp [cont]
+  · simp [cont]
+
+theorem step_direct (a0 : Bytes) (b : BW) (p : Bytes) (u' : Under) (n : Nat) (e : Bool)
+    (hb : b.err = false) (hbuf : b.buf = []) (h : b.u.write p = (u', n, e)) :
+    Step a0 b { b with u := u', err := e } (p.take n) := by
+  obtain ⟨hacc, _, hlim, hnl, hJ⟩ := under_write_spec _ _ _ _ _ h
+  refine ⟨⟨rfl, hlim, fun _ => hb, ?_, ?_, ?_⟩, ?_, ⟨p.take n, List.prefix_refl _, ?_⟩⟩
+  · intro hl; simp [hnl hl, hb]
+  · intro h; rw [hb] at h; cases h
+  · intro k hl hj; exact hJ k a0 hl hj
+  · intro _; simp [cont, hacc, hbuf]
+  · simp [cont, hacc, hbuf]
+
+theorem flush_err (b : BW) (he : b.err = true) : b.flush = b := by
+  simp [BW.flush, he]
+
+theorem step_flush (a0 : Bytes) (b : BW) : Step a0 b b.flush [] := by
+  cases he : b.err with
+  | true => rw [flush_err b he]; exact Step.refl_nil a0 b
+  | false =>
+    unfold BW.flush
+    simp only [he, Bool.false_eq_true, if_false]
+    split
+    · exact Step.refl_nil a0 b
+    · rcases h : b.u.write b.buf with ⟨u', n, e⟩
+      obtain ⟨hacc, hn, hlim, hnl, hJ⟩ := under_write_spec _ _ _ _ _ h
+      simp only []
+      have hcore : ∀ (buf' : Bytes) (e' : Bool), (b.u.limit = none → e' = false) →
+          Core a0 b { b with u := u', buf := buf', err := e' } := by
+        intro buf' e' hne
+        refine ⟨rfl, hlim, fun _ => he, ?_, ?_, ?_⟩
+        · intro hl; simp [hne hl, he]
+        · intro h; rw [he] at h; cases h
+        · intro k hl hj; exact hJ k a0 hl hj
+      split
+      · rename_i hcond
+        have hc : cont { b with u := u', buf := b.buf.drop n, err := true } = cont b := by
+          simp [cont, hacc]
+        refine ⟨hcore _ _ ?_, ?_, ⟨[], List.prefix_refl _, by simpa using hc⟩⟩
+        · intro hl
+          have := hnl hl
+          have := hn this
+          subst_vars
+          simp at hcond
+        · intro h; cases h
+      · rename_i hcond
+        have he' : e = false := by
+          cases e <;> simp_all
+        have hn' := hn he'
+        have hc : cont { b with u := u', buf := [], err := false } = cont b := by
+          simp [cont, hacc, hn']
+        exact ⟨hcore _ _ (fun _ => rfl), fun _ => by simpa using hc, ⟨[], List.prefix_refl _, by simpa using hc⟩⟩
+
+theorem flush_ok (b : BW) (h : b.flush.err = false) : b.flush.buf = [] := by
+  unfold BW.flush at h ⊢
+  cases he : b.err with
+  | true => simp [he] at h
+  | false =>
+    simp only [he, Bool.false_eq_true, if_false] at h ⊢
+    by_cases hb : b.buf.isEmpty = true
+    · simp only [hb, if_true] at h ⊢
+      simpa using hb
+    · simp only [hb] at h ⊢
+      rcases hw : b.u.write b.buf with ⟨u', n, e⟩
+      simp only [hw] at h ⊢
+      by_cases hc : (e || decide (n < b.buf.length)) = true
+      · simp [hc] at h
+      · simp [hc]
+
+theorem wsa_err (fuel : Nat) (b : BW) (p : Bytes) (he : b.err = true) : BW.writeStringAux fuel b p = b := by
+  cases fuel <;> simp [BW.writeStringAux, he]
+
+/-- Fuel that certainly suffices for `writeStringAux` on `b`, `p`. -/
+def need (b : BW) (p : Bytes) : Nat := p.length + 1 + (if b.cap ≤ b.buf.length then 1 else 0)
+
+theorem wsa_tail (a0 : Bytes) (fuel : Nat)
+    (ih : ∀ (b : BW) (p : Bytes), 0 < b.cap → need b p ≤ fuel → Step a0 b (BW.writeStringAux fuel b p) p)
+    (b : BW) (q : Bytes) (hc : 0 < b.cap) (hn : b.err = false → need b q ≤ fuel) :
+    Step a0 b (BW.writeStringAux fuel b q) q := by
+  cases he : b.err with
+  | true => rw [wsa_err fuel b q he]; exact Step.refl_err a0 b q he
+  | false => exact ih b q hc (hn he)
+
+theorem wsa_step (a0 : Bytes) : ∀ (fuel : Nat) (b : BW) (p : Bytes), 0 < b.cap → need b p ≤ fuel →
+    Step a0 b (BW.writeStringAux fuel b p) p := by
+  intro fuel
+  induction fuel with
+  | zero => intro b p _ hn; simp [need] at hn
+  | succ fuel ih =>
+    intro b p hc hn
+    unfold BW.writeStringAux
+    split
+    · rename_i hcond
+      simp only [Bool.and_eq_true, decide_eq_true_eq, Bool.not_eq_eq_eq_not, Bool.not_true] at hcond
+      obtain ⟨hlen, he⟩ := hcond
+      simp only [BW.available] at hlen
+      split
+      · rename_i hd
+        simp only [Bool.and_eq_true, List.isEmpty_iff] at hd
+        obtain ⟨hbuf, _⟩ := hd
+        rcases hw : b.u.write p with ⟨u', n, e⟩
+        have hs := step_direct a0 b p u' n e he hbuf hw
+        obtain ⟨_, hnp, _, _, _⟩ := under_write_spec _ _ _ _ _ hw
+        simp only []
+        split
+        · rename_i hz
+          simp only [Bool.and_eq_true, beq_iff_eq, Bool.not_eq_eq_eq_not, Bool.not_true] at hz
+          have := hnp hz.2
+          omega
+        · refine (hs.trans (wsa_tail a0 fuel ih _ (p.drop n) hc ?_)).cast (List.take_append_drop n p)
+          intro he'
+          have he' : e = false := he'
+          have := hnp he'
+          simp only [need, hbuf, List.length_drop, List.length_nil] at hn ⊢
+          split <;> omega
+      · have h1 := step_append a0 b (p.take (b.cap - b.buf.length)) he
+        have h2 := step_flush a0 { b with buf := b.buf ++ p.take (b.cap - b.buf.length) }
+        have h12 := (h1.trans h2).cast (List.append_nil _)
+        simp only [BW.available]
+        refine (h12.trans (wsa_tail a0 fuel ih _ (p.drop (b.cap - b.buf.length)) ?_ ?_)).cast
+          (List.take_append_drop _ p)
+        · rw [h2.core.cap]; exact hc
+        · intro he'
+          have hb := flush_ok _ he'
+          have hcap := h2.core.cap
+          simp only at hcap
+          simp only [need, hb, hcap, List.length_drop, List.length_nil] at hn ⊢
+          split at hn <;> split <;> omega
+    · rename_i hcond
+      split
+      · rename_i he
+        exact Step.refl_err a0 b p he
+      · rename_i he
+        exact step_append a0 b p (by simpa using he)
+
+theorem ws_step (a0 : Bytes) (b : BW) (p : Bytes) (hc : 0 < b.cap) : Step a0 b (b.writeString p) p := by
+  refine wsa_step a0 _ b p hc ?_
+  simp only [need]
+  split <;> omega
+
+/-! ### The op interpreter -/
+
+theorem docBefore_cons_none (op : ROp) (rest : List ROp) (h : (docBeforeOp op).2 = .none) :
+    docBefore (op :: rest) = ((docBeforeOp op).1 ++ (docBefore rest).1, (docBefore rest).2) := by
+  rw [docBefore]
+  rcases hd : docBeforeOp op with ⟨d, e⟩
+  rw [hd] at h
+  simp only at h
+  subst h
+  rfl
+
+theorem docBefore_cons_err (op : ROp) (rest : List ROp) (h : (docBeforeOp op).2 ≠ .none) :
+    docBefore (op :: rest) = docBeforeOp op := by
+  rw [docBefore]
+  rcases hd : docBeforeOp op with ⟨d, e⟩
+  rw [hd] at h
+  cases e <;> simp_all
+
+mutual
+  theorem docBefore_none : ∀ (ops : List ROp), (docBefore ops).2 = .none → (docBefore ops).1 = docOf ops
+    | [], _ => by simp [docBefore, docOf]
+    | op :: rest, h => by
+      by_cases h1 : (docBeforeOp op).2 = .none
+      · rw [docBefore_cons_none op rest h1] at h ⊢
+        simp only at h ⊢
+        rw [docOf, docBeforeOp_none op h1, docBefore_none rest h]
+      · rw [docBefore_cons_err op rest h1] at h
+        exact absurd h h1
+  theorem docBeforeOp_none : ∀ (op : ROp), (docBeforeOp op).2 = .none → (docBeforeOp op).1 = docOfOp op
+    | .write p, _ => by simp [docBeforeOp, docOfOp]
+    | .exprFail l, h => by simp [docBeforeOp] at h
+    | .sub ops, h => by
+      rw [docBeforeOp] at h ⊢
+      rw [docOfOp, docBefore_none ops h]
+    | .subFail, h => by simp [docBeforeOp] at h
+end
+
+mutual
+  theorem docBefore_failFree : ∀ (ops : List ROp), failFree ops = true → (docBefore ops).2 = .none
+    | [], _ => by simp [docBefore]
+    | op :: rest, h => by
+      rw [failFree, Bool.and_eq_true] at h
+      have h1 := docBeforeOp_failFree op h.1
+      rw [docBefore_cons_none op rest h1]
+      exact docBefore_failFree rest h.2
+  theorem docBeforeOp_failFree : ∀ (op : ROp), failFreeOp op = true → (docBeforeOp op).2 = .none
+    | .write p, _ => by simp [docBeforeOp]
+    | .exprFail l, h => by simp [failFreeOp] at h
+    | .sub ops, h => by
+      rw [failFreeOp] at h
+      rw [docBeforeOp]
+      exact docBefore_failFree ops h
+    | .subFail, h => by simp [failFreeOp] at h
+end
+
+/-- What running ops from `b` (no error yet) to `r` guarantees; `doc` is the full document of the ops, `db` the
+    document up to the first failing step and that step's error. -/
+structure RSpec (a0 : Bytes) (b : BW) (r : BW × RErr) (doc : Bytes) (db : Bytes × RErr) : Prop where
+  core : Core a0 b r.1
+  pre : ∃ t, t <+: doc ∧ cont r.1 = cont b ++ t
+  werr : r.1.err = true ↔ r.2 = .writer
+  ok : r.1.err = false → r.2 = db.2 ∧ cont r.1 = cont b ++ db.1
+
+mutual
+  theorem runOps_spec (a0 : Bytes) : ∀ (ops : List ROp) (b : BW), b.err = false → 0 < b.cap →
+      RSpec a0 b (runOps ops b) (docOf ops) (docBefore ops)
+    | [], b, he, _ => by
+      rw [runOps, docOf, docBefore]
+      exact ⟨Core.refl a0 b, ⟨[], List.prefix_refl _, by simp⟩, by simp [he], fun _ => by simp⟩
+    | op :: rest, b, he, hc => by
+      have h1 := runOp_spec a0 op b he hc
+      rw [runOps, docOf]
+      rcases hr : runOp op b with ⟨b1, e1⟩
+      rw [hr] at h1
+      by_cases hn : e1 = .none
+      · subst hn
+        simp only []
+        have he1 : b1.err = false := by
+          cases h : b1.err with
+          | false => rfl
+          | true => have := h1.werr.mp h; cases this
+        obtain ⟨hdb2, hc1⟩ := h1.ok he1
+        simp only at hdb2 hc1
+        have hdoc := docBeforeOp_none op hdb2.symm
+        have h2 := runOps_spec a0 rest b1 he1 (by rw [h1.core.cap]; exact hc)
+        rw [docBefore_cons_none op rest hdb2.symm]
+        refine ⟨h1.core.trans h2.core, ?_, h2.werr, ?_⟩
+        · obtain ⟨t, ht, hct⟩ := h2.pre
+          refine ⟨docOfOp op ++ t, (List.prefix_append_right_inj _).mpr ht, ?_⟩
+          rw [hct, hc1, hdoc, List.append_assoc]
+        · intro hok
+          obtain ⟨hr2, hc2⟩ := h2.ok hok
+          refine ⟨hr2, ?_⟩
+          simp only
+          rw [hc2, hc1, List.append_assoc]
+      · have key : RSpec a0 b (b1, e1) (docOfOp op ++ docOf rest) (docBefore (op :: rest)) := by
+          refine ⟨h1.core, ?_, h1.werr, ?_⟩
+          · obtain ⟨t, ht, hct⟩ := h1.pre
+            exact ⟨t, ht.trans (List.prefix_append _ _), hct⟩
+          · intro hok
+            obtain ⟨hr2, hc2⟩ := h1.ok hok
+            simp only at hr2 hc2
+            have : (docBeforeOp op).2 ≠ .none := by rw [← hr2]; exact hn
+            rw [docBefore_cons_err op rest this]
+            exact ⟨hr2, hc2⟩
+        cases e1 <;> first | exact absurd rfl hn | exact key
+  theorem runOp_spec (a0 : Bytes) : ∀ (op : ROp) (b : BW), b.err = false → 0 < b.cap →
+      RSpec a0 b (runOp op b) (docOfOp op) (docBeforeOp op)
+    | .write p, b, _, hc => by
+      have hs := ws_step a0 b p hc
+      rw [runOp, docOfOp, docBeforeOp]
+      refine ⟨hs.core, hs.pre, ?_, ?_⟩
+      · simp only []
+        cases (b.writeString p).err <;> simp
+      · intro hok
+        simp only [] at hok ⊢
+        simp only [hok]
+        exact ⟨by simp, hs.exact hok⟩
+    | .exprFail l, b, he, _ => by
+      rw [runOp, docOfOp, docBeforeOp]
+      exact ⟨Core.refl a0 b, ⟨[], List.prefix_refl _, by simp⟩, by simp [he], fun _ => by simp⟩
+    | .sub ops, b, he, hc => by
+      rw [runOp, docOfOp, docBeforeOp]
+      exact runOps_spec a0 ops b he hc
+    | .subFail, b, he, _ => by
+      rw [runOp, docOfOp, docBeforeOp]
+      exact ⟨Core.refl a0 b, ⟨[], List.prefix_refl _, by simp⟩, by simp [he], fun _ => by simp⟩
+end
+
+/-! ### Render -/
+
+theorem render_eq (ops : List ROp) (pooled : BW) (u : Under) :
+    render false ops pooled u =
+      ((runOps ops (pooled.reset u)).1.flush,
+        if (runOps ops (pooled.reset u)).2 == .none then
+          (if (runOps ops (pooled.reset u)).1.flush.err then .writer else .none)
+        else (runOps ops (pooled.reset u)).2) := by
+  simp [render]
+
+/-- Everything known about the buffer after the body and the deferred flush. -/
+theorem render_facts (ops : List ROp) (pooled : BW) (u : Under) (hc : 0 < pooled.cap) :
+    Core u.accepted (pooled.reset u) (render false ops pooled u).1 ∧
+    (∃ t, t <+: docOf ops ∧ cont (render false ops pooled u).1 = u.accepted ++ t) ∧
+    ((runOps ops (pooled.reset u)).1.err = true ↔ (runOps ops (pooled.reset u)).2 = .writer) ∧
+    ((render false ops pooled u).1.err = false →
+      (render false ops pooled u).1.u.accepted = u.accepted ++ (docBefore ops).1 ∧
+      (runOps ops (pooled.reset u)).2 = (docBefore ops).2) := by
+  have hS := runOps_spec u.accepted ops (pooled.reset u) rfl hc
+  have hF := step_flush u.accepted (runOps ops (pooled.reset u)).1
+  have hcont : cont (runOps ops (pooled.reset u)).1.flush = cont (runOps ops (pooled.reset u)).1 := by
+    obtain ⟨t, ht, hct⟩ := hF.pre
+    rw [List.prefix_nil.mp ht] at hct
+    simpa using hct
+  have hb0 : cont (pooled.reset u) = u.accepted := by simp [cont, BW.reset]
+  rw [render_eq]
+  refine ⟨hS.core.trans hF.core, ?_, hS.werr, ?_⟩
+  · obtain ⟨t, ht, hct⟩ := hS.pre
+    exact ⟨t, ht, by simp only []; rw [hcont, hct, hb0]⟩
+  · intro hok
+    simp only [] at hok ⊢
+    have hbuf := flush_ok _ hok
+    obtain ⟨h2, hc1⟩ := hS.ok (hF.core.errMono hok)
+    refine ⟨?_, h2⟩
+    rw [← hcont, hb0] at hc1
+    simpa [cont, hbuf] using hc1
+
 /-- Whatever happens, the caller's writer has received a prefix of the full document (after what it already held). -/
-theorem render_prefix (cancelled : Bool) (ops : List ROp) (pooled : BW) (u : Under) (hc : 0 < pooled.cap) :
-    ∃ rest, u.accepted ++ docOf ops = (render cancelled ops pooled u).1.u.accepted ++ rest := by
-  sorry
+theorem render_prefix (ops : List ROp) (pooled : BW) (u : Under) (hc : 0 < pooled.cap) :
+    ∃ rest, u.accepted ++ docOf ops = (render false ops pooled u).1.u.accepted ++ rest := by
+  obtain ⟨_, ⟨t, ⟨s, hs⟩, hct⟩, _, _⟩ := render_facts ops pooled u hc
+  refine ⟨(render false ops pooled u).1.buf ++ s, ?_⟩
+  rw [← List.append_assoc]
+  change _ = cont _ ++ s
+  rw [hct, ← hs, List.append_assoc]
 
 /-- Render returned nil ⇒ the writer received exactly the full document, once, in order. -/
 theorem render_nil_full (ops : List ROp) (pooled : BW) (u : Under) (hc : 0 < pooled.cap)
     (h : (render false ops pooled u).2 = .none) :
     (render false ops pooled u).1.u.accepted = u.accepted ++ docOf ops := by
-  sorry
+  obtain ⟨_, _, _, hok⟩ := render_facts ops pooled u hc
+  have herr : (render false ops pooled u).1.err = false ∧ (runOps ops (pooled.reset u)).2 = .none := by
+    rw [render_eq] at h ⊢
+    simp only [] at h ⊢
+    split at h
+    · rename_i h1
+      split at h
+      · cases h
+      · rename_i h2
+        exact ⟨by simpa using h2, by simpa using h1⟩
+    · rename_i h1
+      rw [h] at h1
+      simp at h1
+  obtain ⟨hacc, he⟩ := hok herr.1
+  rw [hacc, docBefore_none ops (he.symm.trans herr.2)]
+
+/-- A writer that fails before the end of a non-empty document ⇒ Render reports the writer's error (no step of the
+    template fails by itself). General form: the writer may already be beyond its limit. -/
+theorem render_fault_reported_nonempty (ops : List ROp) (pooled : BW) (u : Under) (hc : 0 < pooled.cap) (k : Nat)
+    (hl : u.limit = some k) (hk : k < u.accepted.length + (docOf ops).length) (hd : docOf ops ≠ [])
+    (hf : failFree ops = true) :
+    (render false ops pooled u).2 = .writer := by
+  obtain ⟨hcore, _, hw, hok⟩ := render_facts ops pooled u hc
+  have hdb2 := docBefore_failFree ops hf
+  have hdb1 := docBefore_none ops hdb2
+  have herr : (render false ops pooled u).1.err = true := by
+    cases he : (render false ops pooled u).1.err with
+    | true => rfl
+    | false =>
+      exfalso
+      obtain ⟨hacc, _⟩ := hok he
+      rw [hdb1] at hacc
+      have hJ := hcore.J k (by simpa [BW.reset] using hl) (Or.inl (by simp [BW.reset]))
+      rw [hacc] at hJ
+      rcases hJ with hJ | hJ
+      · exact hd (by simpa using hJ)
+      · simp only [List.length_append] at hJ
+        omega
+  rw [render_eq] at herr ⊢
+  simp only [] at herr ⊢
+  split
+  · simp
+  · rename_i hne
+    cases he1 : (runOps ops (pooled.reset u)).1.err with
+    | true => exact hw.mp he1
+    | false =>
+      exfalso
+      have hS := runOps_spec u.accepted ops (pooled.reset u) rfl hc
+      have := (hS.ok he1).1
+      rw [this, hdb2] at hne
+      simp at hne
 
 /-- A writer that fails before the end of the document ⇒ Render reports the writer's error (no step of the template
     fails by itself). -/
 theorem render_fault_reported (ops : List ROp) (pooled : BW) (u : Under) (hc : 0 < pooled.cap) (k : Nat)
-    (hl : u.limit = some k) (hk : k < u.accepted.length + (docOf ops).length) (hf : failFree ops = true) :
+    (hl : u.limit = some k) (ha : u.accepted.length ≤ k) (hk : k < u.accepted.length + (docOf ops).length)
+    (hf : failFree ops = true) :
     (render false ops pooled u).2 = .writer := by
-  sorry
+  refine render_fault_reported_nonempty ops pooled u hc k hl hk ?_ hf
+  intro h
+  rw [h] at hk
+  simp only [List.length_nil] at hk
+  omega
 
 /-- With a healthy writer, the first failing expression / component is what Render returns, and the writer has
     received exactly the document up to that point. -/
 theorem render_step_error (ops : List ROp) (pooled : BW) (u : Under) (hc : 0 < pooled.cap) (hl : u.limit = none) :
     (render false ops pooled u).2 = (docBefore ops).2 ∧
     (render false ops pooled u).1.u.accepted = u.accepted ++ (docBefore ops).1 := by
-  sorry
+  obtain ⟨hcore, _, _, hok⟩ := render_facts ops pooled u hc
+  have herr : (render false ops pooled u).1.err = false := by
+    rw [hcore.noLimit (by simpa [BW.reset] using hl)]
+    rfl
+  obtain ⟨hacc, he⟩ := hok herr
+  refine ⟨?_, hacc⟩
+  rw [render_eq] at herr ⊢
+  simp only [] at herr ⊢
+  rw [herr, he]
+  cases (docBefore ops).2 <;> simp
 
 /-- A cancelled context: nothing is written, the context's error is returned. -/
 theorem render_cancelled (ops : List ROp) (pooled : BW) (u : Under) :
@@ -52,6 +542,7 @@ theorem render_cancelled (ops : List ROp) (pooled : BW) (u : Under) :
     its capacity, whatever earlier (failed) renders left in it. -/
 theorem render_pool_independent (ops : List ROp) (pooled : BW) (u : Under) :
     render false ops pooled u = render false ops { cap := pooled.cap } u := by
-  sorry
+  have : pooled.reset u = ({ cap := pooled.cap } : BW).reset u := rfl
+  rw [render_eq, render_eq, this]
 
 end TemplVerif.Proofs.Buf
